@@ -152,6 +152,8 @@ type HarnessSpec struct {
 	MaxPath int            `json:"max_paths,omitempty"`
 	Note    string         `json:"note,omitempty"`
 	Solver  string         `json:"solver,omitempty"`
+	ConcStores bool        `json:"concretize_stores,omitempty"`
+	StubConst map[string]uint64 `json:"stub_const,omitempty"`
 	// CasePick restricts a vhCase variable to a subset: the listed values plus `random` seeded picks (VERIF_SEED)
 	CasePick map[string]CasePick `json:"case_pick,omitempty"`
 	// Reach tags that must be witnessed by at least one completed path (vacuity guard)
@@ -233,6 +235,9 @@ func runHarness(l *Loaded, spec HarnessSpec, workers int, verbose bool, dumpDir 
 		rep.Unsupported = append(rep.Unsupported, "package not loaded: "+spec.Pkg)
 		return rep
 	}
+	if sp.Func(spec.Func+"_api") != nil {
+		apiConfirm[spec.Pkg+"."+spec.Func] = true
+	}
 	fn := sp.Func(spec.Func)
 	if fn == nil {
 		rep.Unsupported = append(rep.Unsupported, "harness function not found: "+spec.Func)
@@ -255,7 +260,7 @@ func runHarness(l *Loaded, spec HarnessSpec, workers int, verbose bool, dumpDir 
 					globalSem <- true
 					defer func() { <-globalSem }()
 					cfg := Config{Unwind: spec.Unwind, Cases: j.cases, Verbose: verbose, FeasTimeoutMs: spec.FeasMs, VerdTimeoutMs: spec.VerdMs,
-						MaxPaths: spec.MaxPath, CaseName: caseName(j.cases), DumpQueries: dumpDir, Params: spec.Params, Solver: spec.Solver}
+						MaxPaths: spec.MaxPath, CaseName: caseName(j.cases), DumpQueries: dumpDir, Params: spec.Params, Solver: spec.Solver, ConcStores: spec.ConcStores, StubConst: spec.StubConst}
 					c := NewCtx(l.prog, cfg)
 					defer c.Close()
 					st := &State{heap: map[int]Value{}}
@@ -392,6 +397,10 @@ func writeJSON(path string, v any) error {
 }
 
 // prepareReplay creates a self-contained replay directory for a violation.
+// apiConfirm: harness functions that have a native-only twin <Func>_api driving the same scenario through the
+// public API from a fresh object; when present, a counterexample only counts as confirmed if the twin fails too.
+var apiConfirm = map[string]bool{}
+
 func prepareReplay(dir string, spec HarnessSpec, v *Violation) error {
 	if err := os.MkdirAll(dir, 0o755); err != nil {
 		return err
@@ -407,10 +416,20 @@ func TestVHReplay(t *testing.T) {
 	%s()
 }
 `, pn, spec.Func)
+	if apiConfirm[spec.Pkg+"."+spec.Func] {
+		test += fmt.Sprintf(`
+func TestVHReplayAPI(t *testing.T) {
+	vhLoadReplay()
+	defer vhReportAPI(t)
+	%s_api()
+}
+`, spec.Func)
+	}
 	if err := os.WriteFile(filepath.Join(dir, "replay_test.go"), []byte(test), 0o644); err != nil {
 		return err
 	}
-	ins := map[string]any{"harness": spec.Func, "pkg": spec.Pkg, "label": v.Label, "kind": v.Kind, "inputs": v.Inputs, "params": spec.Params}
+	ins := map[string]any{"harness": spec.Func, "pkg": spec.Pkg, "label": v.Label, "kind": v.Kind, "inputs": v.Inputs, "params": spec.Params,
+		"api": apiConfirm[spec.Pkg+"."+spec.Func]}
 	if err := writeJSON(filepath.Join(dir, "inputs.json"), ins); err != nil {
 		return err
 	}
@@ -428,6 +447,7 @@ func runReplay(dir string) (string, string) {
 		Pkg     string `json:"pkg"`
 		Label   string `json:"label"`
 		Kind    string `json:"kind"`
+		API     bool   `json:"api"`
 	}
 	json.Unmarshal(b, &ins)
 	scratch, err := os.MkdirTemp("", "gosmt-replay-*")
@@ -443,16 +463,26 @@ func runReplay(dir string) (string, string) {
 	ovPath := filepath.Join(scratch, "overlay.json")
 	writeJSON(ovPath, map[string]any{"Replace": ov})
 	absIn, _ := filepath.Abs(filepath.Join(dir, "inputs.json"))
-	cmd := exec.Command("go", "test", "-v", "-vet=off", "-count=1", "-tags=verif", "-run", "^TestVHReplay$", "-timeout", "120s", "-overlay", ovPath, "./"+ins.Pkg)
+	cmd := exec.Command("go", "test", "-v", "-vet=off", "-count=1", "-tags=verif", "-run", "^TestVHReplay(API)?$", "-timeout", "120s", "-overlay", ovPath, "./"+ins.Pkg)
 	cmd.Dir = repoDir
 	cmd.Env = append(os.Environ(), "GOFLAGS=-mod=mod", "GOPROXY=off", "VH_REPLAY="+absIn, "GOCACHE="+goCache())
 	out, _ := cmd.CombinedOutput()
 	o := string(out)
-	var line string
+	var line, apiLine string
 	for _, l := range strings.Split(o, "\n") {
 		if strings.HasPrefix(strings.TrimSpace(l), "VH-RESULT:") {
 			line = strings.TrimSpace(l)
 		}
+		if strings.HasPrefix(strings.TrimSpace(l), "VH-API-RESULT:") {
+			apiLine = strings.TrimSpace(l)
+		}
+	}
+	if ins.API {
+		// inductive harness: the arbitrary pre-state must also be reached through the public API
+		if !(strings.Contains(apiLine, "assert-fail") || strings.Contains(apiLine, "panic")) {
+			return "no", "harness reproduces (" + line + ") but the API-level scenario does not (" + apiLine + "): unreachable pre-state or harness artefact"
+		}
+		line += " | " + apiLine
 	}
 	if line == "" {
 		// crash of the test binary (e.g. goroutine panic) counts as a panic result
